@@ -62,3 +62,13 @@ CLAIMED["C18"] = (
     "Trusted: the assumed environment models in vf/extmodels.py (A-pickle, A-fs), assumed contracts for the hash of the live data and the "
     "full load (the uncached oracle), A-enc, A-smt.",
     "DESIGN.md 7 C18")
+CLAIMED["C04"] = (
+    "Command and header level of 'the ROM decodes what was given': CmdHeader.crc/export/parse against the ROM's struct reading and checksum, "
+    "CmdJump construction/export/parse (stack pointer present iff given, also for SP = 0), CmdLoad.export (zero padding to 16, count, CRC-32/MPEG-2 "
+    "over the padded data), ImageHeaderV2.export field by field (versions incl. component != product, flags, block counts, build number) are "
+    "discharged for all field values. Section level (AES-CTR block counters, HMAC table) and whole-image level are bounded checks only; "
+    "the key-blob / signature / KEK clauses rest on C09 and the primitives.",
+    "Trusted: A-enc, A-smt, A-struct (struct pack/unpack as positional notation), CRC as an uninterpreted function (C09). BootSectionV2.export/"
+    "parse, BootImageV2x.export/parse and the remaining command classes are NOT under contract (bounded round trips only); known finding C04-KF1: "
+    "BootImageV21.parse reads only the first boot section.",
+    "DESIGN.md 7 C04")
